@@ -46,6 +46,9 @@ def make_targets(lab):
             lab.log.append({"e": "Track", "c": lab.conn_of_context(), "r": rid})
             return rid
 
+        def gen(self, n):
+            return (i for i in range(n))
+
         def untrack(self, rid):
             lab.current_context.untrack_resource(lab.resources[rid])
             lab.log.append({"e": "Untrack", "c": lab.conn_of_context(), "r": rid})
@@ -175,6 +178,12 @@ def run_scenarios(scens, servertype, timeout, seed):
                     seq += 1
                 if scen["session"]:
                     call(victim, "sess", "touch", [], ser, seq)
+                    seq += 1
+                if scen.get("stream"):
+                    call(victim, "target", "gen", [5], ser, seq)      # an unfinished streamed result stays behind
+                    seq += 1
+                    if by is not None:
+                        call(by, "target", "gen", [5], ser, 7)
                 if by is not None:
                     call(by, "target", "track", [4], ser, 1)
                     if scen["session"]:
@@ -243,8 +252,8 @@ def run(ctx):
     tlc.mc(ctx, "Daemon", cfg_text=c08.MC_CFG % (c08.SAMPLES[0], ctx.pick(8, 9)))
     tlc.mc(ctx, "Daemon", cfg_text=c08.MC_CFG % (c08.SAMPLES[1], ctx.pick(8, 9)))
     scens = tlc.gen(ctx, "Gen_Cleanup", cfg="Gen_Cleanup.cfg")
-    if len(scens) != 1080:
-        raise util.MachineryError("expected 1080 cleanup scenarios, got %d" % len(scens))
+    if len(scens) != 1440:
+        raise util.MachineryError("expected 1440 cleanup scenarios, got %d" % len(scens))
     sers = ["serpent", "json", "marshal", "msgpack"]
     groups = {}
     for i, s in enumerate(scens):
@@ -277,7 +286,7 @@ def run(ctx):
         if tr[-1].get("hang"):
             v13 = v13 or "C13.Hang"
         if v13:
-            ctx.violation("%s [ending=%s server=%s%s]" % (v13, m["ending"], m["server"], (" hookraise" if m["hookraise"] else "") + (" resraise" if m.get("resraise") else "")),
+            ctx.violation("%s [ending=%s server=%s%s]" % (v13, m["ending"], m["server"], (" hookraise" if m["hookraise"] else "") + (" resraise" if m.get("resraise") else "") + (" stream" if m.get("stream") else "")),
                           {"scenario": m, "trace": tr})
     if not ctx.violations and (hooks < len(traces) // 2 or rcl < len(traces) // 4):
         raise util.MachineryError("vacuity: hooks=%d resource closes=%d over %d traces" % (hooks, rcl, len(traces)))
